@@ -71,6 +71,16 @@ class C12(F.Spec):
                 data = bytes(rng.getrandbits(8) for _ in range(rng.choice([0, 0, 8, 8, 4, 16])))
                 if dt == 1000 and len(data) == 8 and rng.random() < .7:
                     data = struct.pack("<ii", rng.choice([0, 2000, 6000]), rng.choice([0, 2000, 6000]))
+                if rng.random() < .3:
+                    # a complete, well-formed recalibrate / enter-cfg request: only the authorisation flag decides
+                    cmd = rng.choice([8000, 8000, 9000])
+                    dt, data = 1000, struct.pack("<ii", rng.choice([0, 2000, 6000]), rng.choice([0, 2000, 6000]))
+                    ch = rng.choice([0, 0, 1, 2])
+                    auth = rng.choice([0, 0, 0, 1, 2, 255])
+                if board.startswith("rs"):
+                    # every request meets calibrated shutters without a task, so that a recalibration is always visible
+                    for k in range(int(board[2:])):
+                        ops += ["rscancel %d" % k, "rstimes %d 3000 3000 0 0" % k, "rspos %d 5000 0" % k]
                 ops.append("msg 460 " + calcfg(3, ch, cmd, auth if auth < 128 else auth - 256, dt, data).hex())
                 reqs.append((ch, cmd, auth, dt, len(data)))
             else:
@@ -98,7 +108,8 @@ class C12(F.Spec):
         board = rng.choice(["relay2", "relay4", "rs1", "rs2"])
         # input 0 is the configuration button; input 1 is a plain button
         f0 = rng.choice([0x03, 0x03 | 0x04, 0x03 | 0x40, 0x03 | 0x20, 0x03 | 0x20 | 0x40 | 0x04])
-        ops = ["board " + board, "inflags 0 %d" % f0, "init", "adv 1000"]
+        # (inputs are released at power-on: pull-up level 1)
+        ops = ["board " + board, "inflags 0 %d" % f0, "inlevel 9 1", "inlevel 10 1", "init", "adv 1000"]
         pin = 9 if rng.random() < .7 else 10
         g = rng.choice(["hold", "hold", "toggles"])
         if g == "hold":
